@@ -1067,7 +1067,7 @@ def check_C16(res):
     finish_codec(res)
 
 
-C15_THEOREMS = []
+C15_THEOREMS = ['Blf.Props.C15_init', 'Blf.Props.C15_append_container', 'Blf.Props.C15_read', 'Blf.Props.C15_read_preserves', 'Blf.Props.C15_seek_preserves', 'Blf.Props.C15_setFileSize_preserves', 'Blf.Props.C15_drop_preserves', 'Blf.Props.C15_drop_safe', 'Blf.Props.C15_read_flags']
 C16_THEOREMS = ['Blf.Props.C16_fifo', 'Blf.Props.C16_backpressure', 'Blf.Props.C16_eos', 'Blf.Props.C16_abort_releases', 'Blf.Props.C16_positions']
 
 
